@@ -11,6 +11,7 @@ open Py Xs.Bind Xs.Bind.F1 Xs.Bind.FN
 def itemTreeNN (M : NsMap) (rec : XmlVar → Val → Tree) (var : XmlVar) (y : Val) : Tree :=
   match y with
   | .obj .. => rec var y
+  | .any .. => treeOfAny M y
   | y => primItemTree M var y
 
 /-- the pairs `next_value` yields -/
@@ -98,14 +99,21 @@ def MainStmtN (ft : Feat) (e : BEnv) (Γ : Ctx) (cfg : SerCfg) (pcfg : ParserCon
 
 /-! ### `parseNode` on an element node, from its parts -/
 
+/-- the entries `bind_objects` handles: items of a declared element, or generic items of the list
+wildcard -/
+def EntryK (m : XmlMeta) (var : XmlVar) (y : Val) : Prop :=
+  ElemFactsN m var ∨ (WildFactsN m var ∧ ∃ q t tl a kids, y = .any q t tl a kids)
+
 theorem parseNode_element_N (e : BEnv) (Γ : Ctx) (pcfg : ParserConfig) (m : XmlMeta) (q : QN)
     (a : List (QN × Str)) (M : NsMap) (text : Option Str) (kids : List Tree)
     (entries : List (XmlVar × Val)) (stF : ElState) (PA PT : Params) (bt : Bool) (v : Val)
-    (hc : m.choices = []) (hw : m.wildcards = [])
+    (hc : m.choices = [])
+    (hw : m.wildcards = [] ∨ (text = none ∧ ∃ wv, m.wildcards = [wv] ∧ wv.mixed = false))
     (hnil : xsiNilOf a = some true → m.nillable = true)
     (hK : parseKids e Γ pcfg m {} none kids =
       .ok (⟨entries.map (fun en => (some en.1.qname, en.2)), 0⟩, stF))
-    (hE : ∀ en ∈ entries, ElemFactsN m en.1) (hWs : WsOK stF.wrappers entries)
+    (hE : ∀ en ∈ entries, EntryK m en.1 en.2) (hWs : WsOK stF.wrappers entries)
+    (hFr : FreshOK PA entries)
     (hA : bindAttrs e pcfg m a M = .ok (PA, 0))
     (hT : bindText e pcfg m (xsiNilOf a) M (bindEntries PA entries) text = .ok (bt, PT, 0))
     (hF : classFactory Γ m.clazz PT = .ok v) (xtN : Option QN) :
@@ -116,12 +124,24 @@ theorem parseNode_element_N (e : BEnv) (Γ : Ctx) (pcfg : ParserConfig) (m : Xml
     by_cases h : xsiNilOf a = some true
     · simp [h, hnil h]
     · simp [h]
-  simp only [hK, bind, Except.bind, hcond, if_true, hA, XmlMeta.findAnyWildcard, hw, List.head?_nil]
-  rw [bindObjects_genN (m := m) _ ?_ entries PA stF.wrappers hE hWs]
-  · simp [hT, hF, normalizeContent, pure, Except.pure]
-  · intro P ws var y hf hpop
-    obtain ⟨b, hb⟩ := bindObject_N hf hc hw ws P y hpop
-    simp [hb, bind, Except.bind, pure, Except.pure]
+  rcases hw with h | ⟨ht, wv, h, hm⟩
+  · have hfw : m.findAnyWildcard = none := by simp [XmlMeta.findAnyWildcard, h]
+    simp only [hK, bind, Except.bind, hcond, if_true, hA, hfw, Bool.false_eq_true, if_false]
+    rw [bindObjects_genN (m := m) (EntryK m) _ ?_ entries PA stF.wrappers hE hWs hFr]
+    · simp [hT, hF, normalizeContent, pure, Except.pure]
+    · intro P ws var y hk hpop hfr
+      rcases hk with hf | ⟨hwf, q', t, tl, a', kids', rfl⟩
+      · simp [bindObject_N hf hc ws P y hpop hfr, bind, Except.bind, pure, Except.pure]
+      · simp [bindObject_W hwf ws P _ _ _ _ _ hpop, bind, Except.bind, pure, Except.pure]
+  · have hfw : m.findAnyWildcard = some wv := by simp [XmlMeta.findAnyWildcard, h]
+    subst ht
+    simp only [hK, bind, Except.bind, hcond, if_true, hA, hfw, hm, Bool.false_eq_true, if_false]
+    rw [bindObjects_genN (m := m) (EntryK m) _ ?_ entries PA stF.wrappers hE hWs hFr]
+    · cases bt <;> simp [hT, hF, normalizeContent, bindWildText, pure, Except.pure]
+    · intro P ws var y hk hpop hfr
+      rcases hk with hf | ⟨hwf, q', t, tl, a', kids', rfl⟩
+      · simp [bindObject_N hf hc ws P y hpop hfr, bind, Except.bind, pure, Except.pure]
+      · simp [bindObject_W hwf ws P _ _ _ _ _ hpop, bind, Except.bind, pure, Except.pure]
 
 
 /-! ### one element var: everything the induction step needs -/
@@ -141,13 +161,14 @@ structure VarBundle (e : BEnv) (Γ : Ctx) (cfg : SerCfg) (pcfg : ParserConfig) (
         (var.init = false ∧ ∃ p, x = .prim p ∧ var.default = .val p)))
 
 theorem itemTreeNN_prim (M : NsMap) (rec : XmlVar → Val → Tree) (var : XmlVar) {y : Val}
-    (h : ∀ c fs, y ≠ .obj c fs) : itemTreeNN M rec var y = primItemTree M var y := by
-  cases y <;> first | rfl | exact absurd rfl (h _ _)
+    (h : ∀ c fs, y ≠ .obj c fs) (h' : ∀ q t tl a k, y ≠ .any q t tl a k) :
+    itemTreeNN M rec var y = primItemTree M var y := by
+  cases y <;> first | rfl | exact absurd rfl (h _ _) | exact absurd rfl (h' _ _ _ _ _)
 
 /-- a primitive-like item: all three sides -/
 theorem primItem_all (e : BEnv) (Γ : Ctx) (cfg : SerCfg) (pcfg : ParserConfig) (M : NsMap)
     (ns : Option Str) (rec : XmlVar → Val → Tree) {m : XmlMeta} {var : XmlVar}
-    (hf : ElemFactsN m var) (hw : m.wildcards = []) (hcl : var.clazz = none) {t : PT}
+    (hf : ElemFactsN m var) (hw : m.mixedContent = false) (hcl : var.clazz = none) {t : PT}
     (hty : var.types = [.prim t]) {y : Val} (hy : PrimItem e var t y)
     (h1 : y = .none → var.default = .none ∨ (var.default = .listFactory ∧ var.tokens = false))
     (h2 : ∀ p, y = .prim p → var.tokens = false ∧ (p = .str [] →
@@ -159,7 +180,9 @@ theorem primItem_all (e : BEnv) (Γ : Ctx) (cfg : SerCfg) (pcfg : ParserConfig) 
     plain M (itemTreeNN M rec var y) = true ∧ ItemP e Γ pcfg M m var y (itemTreeNN M rec var y) := by
   have hno : ∀ c fs, y ≠ .obj c fs := by
     intro c fs h; subst h; cases hy
-  rw [itemTreeNN_prim M rec var hno]
+  have hno' : ∀ q t tl a k, y ≠ .any q t tl a k := by
+    intro q t tl a k h; subst h; cases hy
+  rw [itemTreeNN_prim M rec var hno hno']
   obtain ⟨d, hd, hce⟩ := convertElement_N hf hy
   have hsub := primItem_SubW (Γ := Γ) M hy hd
   refine ⟨⟨_, ?_, hsub⟩, itemP_prim e Γ pcfg M hf hw hcl hty hy h1 h2 h3⟩
@@ -199,7 +222,7 @@ theorem Toks.notArray {e : BEnv} {t : PT} {ys : List Val} (h : Toks e t ys) :
 /-- an element var of primitive type -/
 theorem prim_bundle (e : BEnv) (Γ : Ctx) (cfg : SerCfg) (pcfg : ParserConfig) (M : NsMap)
     (ns : Option Str) (rec : XmlVar → Val → Tree) {m : XmlMeta} {ci : ClassInfo} {var : XmlVar}
-    (hf : ElemFactsN m var) (hw : m.wildcards = []) {t : PT} (hcl : var.clazz = none)
+    (hf : ElemFactsN m var) (hw : m.mixedContent = false) {t : PT} (hcl : var.clazz = none)
     (hp : primTypeOf var = some t) (hty : var.types = [.prim t])
     (hd : if var.tokens || var.listElement then var.default = .listFactory
           else scalarDefault var.default t = true ∧ (var.nillable = true → var.default = .none))
@@ -210,7 +233,8 @@ theorem prim_bundle (e : BEnv) (Γ : Ctx) (cfg : SerCfg) (pcfg : ParserConfig) (
   unfold FN.elemValOK at hx
   rw [Bool.and_eq_true] at hx
   obtain ⟨hfx, hx⟩ := hx
-  simp only [hcl, hp] at hx
+  have hnw : var.isWildcard = false := by simp [VarCore.isWildcard, hf.isElem]
+  simp only [hnw, Bool.false_eq_true, if_false, hcl, hp] at hx
   -- a var with `init=False` is a scalar that is not nillable
   have hfixed : var.init = false → var.tokens = false ∧ var.listElement = false ∧ var.nillable = false ∧
       ∃ p, x = .prim p ∧ var.default = .val p := by
@@ -563,7 +587,7 @@ structure VarBundleG (e : BEnv) (Γ : Ctx) (cfg : SerCfg) (pcfg : ParserConfig) 
   items : ∀ y ∈ itemsN var x, ∀ fI, (fI = f + 1 ∨ (fI = f ∧ x.isArray = true)) →
     (∃ evs, itemGen e Γ cfg var ns fI y = .ok evs ∧
       SubW M (isDatatype Γ) evs (treeSax (itemTreeNN M rec var y)) ∧
-      (TypesGood e M evs → ItemP e Γ pcfg M m var y (itemTreeNN M rec var y))) ∧
+      (TypesGood e M evs → ItemK e Γ pcfg M m var y (itemTreeNN M rec var y))) ∧
     plain M (itemTreeNN M rec var y) = true
   short : var.listElement = false → (itemsN var x).length ≤ 1
   param : finalParam var (itemsN var x) = some x ∨
@@ -573,17 +597,18 @@ structure VarBundleG (e : BEnv) (Γ : Ctx) (cfg : SerCfg) (pcfg : ParserConfig) 
 
 theorem VarBundle.toG {e : BEnv} {Γ : Ctx} {cfg : SerCfg} {pcfg : ParserConfig} {M : NsMap}
     {m : XmlMeta} {ci : ClassInfo} {ns : Option Str} {rec : XmlVar → Val → Tree} {f : Nat}
-    {var : XmlVar} {x : Val} (h : VarBundle e Γ cfg pcfg M m ci ns rec f var x) :
+    {var : XmlVar} {x : Val} (h : VarBundle e Γ cfg pcfg M m ci ns rec f var x)
+    (hf : ElemFactsN m var) (hc : m.choices = []) :
     VarBundleG e Γ cfg pcfg M m ci ns rec f var x :=
   ⟨h.shape, fun y hy fI hF => by
     obtain ⟨⟨evs, hg, hs⟩, hp, hi⟩ := h.items y hy fI hF
-    exact ⟨⟨evs, hg, hs, fun _ => hi⟩, hp⟩, h.short, h.param⟩
+    exact ⟨⟨evs, hg, hs, fun _ => itemK_of_itemP hf hc hi⟩, hp⟩, h.short, h.param⟩
 
 /-- an element var of model type -/
 theorem cls_bundle (ft : Feat) (e : BEnv) (Γ : Ctx) (cfg : SerCfg) (pcfg : ParserConfig) (M : NsMap) (n : Nat)
     (hΓ : ctxOK ft Γ = true)
     (IH : MainStmtN ft e Γ cfg pcfg M n) {m : XmlMeta} {ci : ClassInfo} {var : XmlVar}
-    (hf : ElemFactsN m var) {c : ClassId} {m' : XmlMeta} (hcl : var.clazz = some c)
+    (hf : ElemFactsN m var) (hch : m.choices = []) {c : ClassId} {m' : XmlMeta} (hcl : var.clazz = some c)
     (htk : var.tokens = false) (hty : var.types = [.cls c])
     (hd : if var.listElement then var.default = .listFactory else var.default = .none)
     (hm' : metaOf Γ c (targetUri m.qname) = some m')
@@ -594,7 +619,8 @@ theorem cls_bundle (ft : Feat) (e : BEnv) (Γ : Ctx) (cfg : SerCfg) (pcfg : Pars
   unfold FN.elemValOK at hx
   rw [Bool.and_eq_true] at hx
   replace hx := hx.2
-  simp only [hcl, hm'] at hx
+  have hnw : var.isWildcard = false := by simp [VarCore.isWildcard, hf.isElem]
+  simp only [hnw, Bool.false_eq_true, if_false, hcl, hm'] at hx
   have hnil := fun fI hfI => nilItem_cls e Γ cfg pcfg M (targetUri m.qname) (itemRec Γ cfg M n (targetUri m.qname))
     hf hcl htk hm' (f := fI) (hfuel := hfI)
   by_cases hl : var.listElement = true
@@ -615,8 +641,9 @@ theorem cls_bundle (ft : Feat) (e : BEnv) (Γ : Ctx) (cfg : SerCfg) (pcfg : Pars
       have hfI : 4 * y.size + 3 ≤ fI := by rcases hF with h | h <;> omega
       rcases hcases y hy with ⟨rfl, hn, hmn⟩ | ⟨_, h⟩
       · obtain ⟨⟨evs, hg, hs⟩, hp, hI⟩ := hnil fI (by omega) hn hmn
-        exact ⟨⟨evs, hg, hs, fun _ => hI⟩, hp⟩
-      · exact objItem_N ft e Γ cfg pcfg M n hΓ IH hf hcl htk hty y h fI hfI
+        exact ⟨⟨evs, hg, hs, fun _ => itemK_of_itemP hf hch hI⟩, hp⟩
+      · obtain ⟨⟨evs, hg, hs, hI⟩, hp⟩ := objItem_N ft e Γ cfg pcfg M n hΓ IH hf hcl htk hty y h fI hfI
+        exact ⟨⟨evs, hg, hs, fun hgood => itemK_of_itemP hf hch (hI hgood)⟩, hp⟩
     · rw [hitems]
       cases xs with
       | nil => exact Or.inr ⟨by simp [finalParam, hl, hi], Or.inr (Or.inl ⟨rfl, hd⟩)⟩
@@ -635,7 +662,7 @@ theorem cls_bundle (ft : Feat) (e : BEnv) (Γ : Ctx) (cfg : SerCfg) (pcfg : Pars
         simp only [List.mem_singleton] at hy
         subst hy
         obtain ⟨⟨evs, hg, hs⟩, hp, hI⟩ := hnil fI (by rcases hF with h | h <;> omega) hn hmn
-        exact ⟨⟨evs, hg, hs, fun _ => hI⟩, hp⟩
+        exact ⟨⟨evs, hg, hs, fun _ => itemK_of_itemP hf hch hI⟩, hp⟩
       · have hitems : itemsN var .none = [] := by simp [itemsN, hn]
         exact ⟨Shape.none htk hl', by simp [hitems], fun _ => by simp [hitems],
           Or.inr ⟨by simp [hitems, finalParam, hl', hi], Or.inl ⟨rfl, hfd⟩⟩⟩
@@ -647,10 +674,12 @@ theorem cls_bundle (ft : Feat) (e : BEnv) (Γ : Ctx) (cfg : SerCfg) (pcfg : Pars
       intro y hy fI hF
       simp only [List.mem_singleton] at hy
       subst hy
-      exact objItem_N ft e Γ cfg pcfg M n hΓ IH hf hcl htk hty _ (by simpa using hx) fI
+      obtain ⟨⟨evs, hg, hs, hI⟩, hp⟩ := objItem_N ft e Γ cfg pcfg M n hΓ IH hf hcl htk hty _
+        (by simpa using hx) fI
         (by rcases hF with h | h
             · omega
             · simp [Val.isArray] at h)
+      exact ⟨⟨evs, hg, hs, fun hgood => itemK_of_itemP hf hch (hI hgood)⟩, hp⟩
     | prim p => simp at hx
     | list xs => simp at hx
     | any q' tx tl a cs => simp at hx
@@ -661,7 +690,7 @@ theorem cls_bundle (ft : Feat) (e : BEnv) (Γ : Ctx) (cfg : SerCfg) (pcfg : Pars
 /-- `None` only occurs among the items of a nillable var -/
 theorem items_nones {e : BEnv} {Γ : Ctx} {m : XmlMeta} {ci : ClassInfo} {var : XmlVar}
     {rc : ClassId → Option QN → Val → Bool} {x : Val} {ft : Feat} {inh : Bool}
-    (hk : ElemKindN ft Γ m var)
+    (hk : ElemKindN ft Γ m var) (hnw : var.isWildcard = false)
     (hx : FN.elemValOK inh e Γ m ci var rc x = true) :
     ∀ y ∈ itemsN var x, y = .none → var.nillable = true := by
   intro y hy hnone
@@ -685,6 +714,7 @@ theorem items_nones {e : BEnv} {Γ : Ctx} {m : XmlMeta} {ci : ClassInfo} {var : 
         unfold FN.elemValOK at hx
         rw [Bool.and_eq_true] at hx
         replace hx := hx.2
+        simp only [hnw, Bool.false_eq_true, if_false] at hx
         cases hk with
         | prim t hc hp _ _ =>
           simp only [hc, hp, htok, if_true] at hx
@@ -702,6 +732,7 @@ theorem items_nones {e : BEnv} {Γ : Ctx} {m : XmlMeta} {ci : ClassInfo} {var : 
       unfold FN.elemValOK at hx
       rw [Bool.and_eq_true] at hx
       replace hx := hx.2
+      simp only [hnw, Bool.false_eq_true, if_false] at hx
       cases hk with
       | prim t hc hp _ _ =>
         simp only [hc, hp, htok', Bool.false_eq_true, if_false] at hx
@@ -724,5 +755,61 @@ theorem items_nones {e : BEnv} {Γ : Ctx} {m : XmlMeta} {ci : ClassInfo} {var : 
   | any q t tl a cs => simp [itemsN] at hy
   | derived q v t => simp [itemsN] at hy
   | attrs a => simp [itemsN] at hy
+
+/-! ### the list wildcard -/
+
+theorem wild_items {e : BEnv} {Γ : Ctx} {m : XmlMeta} {ci : ClassInfo} {var : XmlVar}
+    (hw : WildFactsN m var) {rc : ClassId → Option QN → Val → Bool} {x : Val} {inh : Bool}
+    (hx : FN.elemValOK inh e Γ m ci var rc x = true) :
+    ∃ xs, x = .list xs ∧ itemsN var x = xs ∧ ∀ y ∈ xs, wildItemOK e Γ m var y = true := by
+  unfold FN.elemValOK at hx
+  rw [Bool.and_eq_true] at hx
+  replace hx := hx.2
+  have hiw : var.isWildcard = true := by simp [VarCore.isWildcard, hw.isWild]
+  simp only [hiw, if_true] at hx
+  cases x <;> simp at hx
+  rename_i xs
+  exact ⟨xs, rfl, by simp [itemsN, hw.tokens], hx⟩
+
+/-- the list wildcard of a class: its generic items -/
+theorem wild_bundle (e : BEnv) (Γ : Ctx) (cfg : SerCfg) (pcfg : ParserConfig) (M : NsMap)
+    (ns : Option Str) (rec : XmlVar → Val → Tree) {m : XmlMeta} {ci : ClassInfo} {var : XmlVar}
+    (hw : WildFactsN m var) {rc : ClassId → Option QN → Val → Bool} {x : Val} {inh : Bool}
+    (hx : FN.elemValOK inh e Γ m ci var rc x = true) (f : Nat) (hfuel : 4 * x.size + 2 ≤ f) :
+    VarBundleG e Γ cfg pcfg M m ci ns rec f var x := by
+  obtain ⟨xs, rfl, hitems, hall⟩ := wild_items hw hx
+  have hany := fun y hy => wildItemOK_any (hall y hy)
+  refine ⟨Shape.list xs hw.tokens hw.list ?_, ?_, fun h => by simp [hw.list] at h, ?_⟩
+  · intro y hy
+    obtain ⟨q, t, a, kids, rfl, _⟩ := hany y hy
+    rfl
+  · rw [hitems]
+    intro y hy fI hF
+    have hsz := size_le_sizeList hy
+    simp only [Val.size] at hfuel
+    obtain ⟨q, t, a, kids, rfl, _, _, _, _, _, hcanon⟩ := hany y hy
+    obtain ⟨f', rfl⟩ : ∃ f', fI = f' + 1 := ⟨fI - 1, by rcases hF with h | h <;> omega⟩
+    have htree : itemTreeNN M rec var (.any (some q) (some t) none a kids) =
+        treeOfAny M (.any (some q) (some t) none a kids) := rfl
+    rw [htree]
+    refine ⟨⟨_, ?_, SubW_treeOfAny e Γ M hcanon, fun _ => itemK_wild e Γ pcfg M hw (hall _ hy)⟩,
+      plain_treeOfAny e Γ M _ hcanon⟩
+    simp only [itemGen, hw.tokens, Bool.false_eq_true, if_false]
+    rw [genValue_any_wild e Γ cfg hw.isWild hw.mixed hw.tokens]
+    exact genAnyType_canon e Γ cfg M var hcanon f' (by rcases hF with h | h <;> omega) ns
+  · rw [hitems]
+    cases xs with
+    | nil => exact Or.inr ⟨by simp [finalParam, hw.list, hw.init], Or.inr (Or.inl ⟨rfl, hw.default⟩)⟩
+    | cons a l => exact Or.inl (by simp [finalParam, hw.list, hw.init])
+
+theorem items_nones_wild {e : BEnv} {Γ : Ctx} {m : XmlMeta} {ci : ClassInfo} {var : XmlVar}
+    (hw : WildFactsN m var) {rc : ClassId → Option QN → Val → Bool} {x : Val} {inh : Bool}
+    (hx : FN.elemValOK inh e Γ m ci var rc x = true) :
+    ∀ y ∈ itemsN var x, y = .none → var.nillable = true := by
+  obtain ⟨xs, rfl, hitems, hall⟩ := wild_items hw hx
+  rw [hitems]
+  intro y hy hn
+  subst hn
+  simpa [wildItemOK] using hall _ hy
 
 end Proofs.C01
